@@ -1039,8 +1039,11 @@ class Graph:
                 sp = rng.choice([p, p, f'./{p}', f'{dname}/../{p}'])
                 if sp != p:
                     self.feat.add('two-spellings')
-                    if p in self.once_files:
-                        self.gcc_ok = False
+                # a file named with its directory from the main file is opened as "./dir/name" (and its quoted includes as
+                # "./dir/other"), the same file found through -Idir as "dir/name": chibicc keys #pragma once by that spelling,
+                # gcc by file identity - implementation-defined, compared with the model only
+                if any(o.startswith(dname + '/') for o in self.once_files):
+                    self.gcc_ok = False
                 if n in self.next_names:
                     # reached by the including file's directory rule: what "the directory where the file was found" means differs
                     # between implementations when the file holds #include_next; keep to the angle form
@@ -1276,6 +1279,60 @@ def fixed_include_cases(ctx, corr):
                                     'args': args, 'expected': gcc, 'got': impl, 'stderr': ierr[-300:]})
 
 
+
+# ============================================================================ exhaustive short line sequences
+
+def exhaustive_short(ctx, corr):
+    """every sequence of at most L lines over a small alphabet of directives (well-formed or not): chibicc -E == model.
+    (model == Spec.groups on these is theorem C10_groups; gcc is not consulted here)"""
+    import itertools
+    alpha = [('mk_t', 't mk_t'), ('#if 0', 'if n 0 s'), ('#if 1', 'if n 1 s'), ('#ifdef A', 'ifdef A 0'), ('#ifndef A', 'ifndef A 0'),
+             ('#elif 0', 'elif n 0 s'), ('#elif 1', 'elif n 1 s'), ('#else', 'else 0'), ('#endif', 'endif 0'), ('#define A', 'define A -'),
+             ('#undef A', 'undef A 0')]
+    L = 3 if not ctx.thorough else 4
+    if ctx.thorough:
+        pass
+    probe = [Ln('#ifdef A', 'ifdef A 0'), Ln('mk_def_A', 't mk_def_A'), Ln('#endif', 'endif 0')]
+    seqs = []
+    for n in range(1, L + 1):
+        for combo in itertools.product(range(len(alpha)), repeat=n):
+            lines = []
+            for k, i in enumerate(combo):
+                c, m = alpha[i]
+                if c == 'mk_t':
+                    c, m = f'mk_t{k}', f't mk_t{k}'
+                lines.append(Ln(c, m))
+            seqs.append(lines + probe)
+    proto = ''.join('\n'.join(l.p for l in s) + '\nend\n' for s in seqs)
+    out = ctx.driver('cond', proto).splitlines()
+    if len(out) != len(seqs):
+        corr.disagreements.append({'kind': 'driver protocol (exhaustive)', 'note': f'{len(out)} answers for {len(seqs)}'})
+        return
+    d = case_dir(ctx, 'exh')
+    bad = 0
+    for lines, ans in zip(seqs, out):
+        r = parse_drv(ans)
+        write_unit(d, 'e.c', lines)
+        impl, ierr = run_pp([ctx.cc, '-E', 'e.c'], d)
+        corr.evaluations += 1
+        model = model_markers(r['model']) if r else ans
+        if r and r['model'] != r['spec']:
+            corr.disagreements.append({'kind': 'exhaustive: model vs Spec.groups (theorem C10_groups contradicted?)', 'input': '\n'.join(l.c for l in lines),
+                                       'model': r['model'], 'spec': r['spec']})
+            bad += 1
+        if impl != model:
+            src = '\n'.join(l.c for l in lines) + '\n'
+            corr.disagreements.append({'kind': 'exhaustive short sequence: model vs chibicc -E', 'input': src, 'model': model, 'impl': impl, 'stderr': ierr[-200:]})
+            gcc, _ = run_pp(['gcc', '-E', '-P', 'e.c'], d)
+            if gcc.startswith('ok:') and gcc != impl:
+                corr.violations.append({'what': 'chibicc -E selects different text than gcc -E -P', 'input': src, 'expected': gcc, 'got': impl})
+            bad += 1
+        if bad >= 3:
+            break
+    corr.count('exhaustive-short', len(seqs))
+    corr.extra['exhaustive_subspace'] = (f'all sequences of 1..{L} lines over {{text, #if 0, #if 1, #ifdef A, #ifndef A, #elif 0, #elif 1, #else, #endif, '
+                                         f'#define A, #undef A}} ({len(seqs)} translation units, well-formed or not): chibicc -E == model')
+
 # ============================================================================ entry points
 
 def correspond(ctx, corr):
@@ -1292,6 +1349,7 @@ def correspond(ctx, corr):
     run_corpus(ctx, corr)
     known_witness(ctx, corr)
     fixed_include_cases(ctx, corr)
+    exhaustive_short(ctx, corr)
     arith_cases(ctx, corr)
     nv, nb, ng = (700, 200, 350) if not ctx.thorough else (12000, 3000, 6000)
     for chunk in range(0, nv, 400):
